@@ -275,6 +275,22 @@ func cmdCheck(args []string) int {
 		o2.Jobs = 4
 		discharge(stragglers, &o2)
 	}
+	// the bit/popcount lemma library is a premise of every word-level function: re-prove it on this run
+	lemmaLib := map[string]interface{}{"used": false}
+	for _, fr := range results {
+		if fr.WordMode {
+			lemmaLib["used"] = true
+		}
+	}
+	if lemmaLib["used"] == true {
+		facts, inst, lf, slowest, msgs := proveLemmaLibrary(false)
+		lemmaLib = map[string]interface{}{"used": true, "facts": facts, "instances_reproved": inst - lf, "failed": lf, "slowest_s": round2(slowest)}
+		for _, m := range msgs {
+			if strings.HasPrefix(m, "LEMMA NOT PROVED") {
+				engineErrors = append(engineErrors, "bit lemma library: "+m)
+			}
+		}
+	}
 	extraDone := 0
 	if len(extra) > 0 {
 		discharge(extra, opts)
@@ -472,6 +488,7 @@ func cmdCheck(args []string) int {
 		"orphan_contracts":         orphans,
 		"undecided_excluded":       undecided,
 		"undecided_attempted":      map[string]int{"attempted": len(extra), "discharged_this_run": extraDone},
+		"lemma_library":            lemmaLib,
 		"inlined_uncontracted":     inlined,
 		"known_findings_seen":      knownList,
 		"engine_errors":            engineErrors,
